@@ -185,6 +185,7 @@ def type_reverse(object):
         return base64.standard_b64decode(encoded)
 
 
+MAX_REAUTH_ATTEMPTS = 3
 _async_auth_glock = asyncio.Lock()
 _async_auth_locks = weakref.WeakKeyDictionary()
 _sync_auth_glock = threading.Lock()
@@ -216,17 +217,23 @@ def requires_auth(func):
                     async with lock:
                         pass
 
-            try:
-                return await func(self, *a, **ka)
-            except exceptions.AuthRequired:
-                if not self._async_auth_lock.locked():
-                    async with self._async_auth_lock:
-                        await self.authenticate()
-                else:
-                    async with self._async_auth_lock:
-                        pass
+            attempts = 0
 
-                return await wrapper(self, *a, **ka)
+            while True:
+                try:
+                    return await func(self, *a, **ka)
+                except exceptions.AuthRequired:
+                    # Don't keep re-authenticating forever if the call keeps failing
+                    if attempts >= MAX_REAUTH_ATTEMPTS:
+                        raise
+
+                    attempts += 1
+                    if not self._async_auth_lock.locked():
+                        async with self._async_auth_lock:
+                            await self.authenticate()
+                    else:
+                        async with self._async_auth_lock:
+                            pass
 
     else:
 
@@ -248,19 +255,25 @@ def requires_auth(func):
                     with lock:
                         pass
 
-            try:
-                return func(self, *a, **ka)
-            except exceptions.AuthRequired:
-                if self._auth_lock.acquire(blocking=False):
-                    try:
-                        self.authenticate()
-                    finally:
-                        self._auth_lock.release()
-                else:
-                    with self._auth_lock:
-                        pass
+            attempts = 0
 
-                return wrapper(self, *a, **ka)
+            while True:
+                try:
+                    return func(self, *a, **ka)
+                except exceptions.AuthRequired:
+                    # Don't keep re-authenticating forever if the call keeps failing
+                    if attempts >= MAX_REAUTH_ATTEMPTS:
+                        raise
+
+                    attempts += 1
+                    if self._auth_lock.acquire(blocking=False):
+                        try:
+                            self.authenticate()
+                        finally:
+                            self._auth_lock.release()
+                    else:
+                        with self._auth_lock:
+                            pass
 
     wrapper = functools.wraps(func)(wrapper)
     return wrapper
